@@ -34,12 +34,12 @@ Proof.
 Qed.
 
 (* a keyword given as a name comes back as a different token that is not a keyword either *)
-Lemma keyword_is_stropped_thm l ty w : In w (lang_keywords l) -> str_eqb (lower ty) ty_all = false ->
+Lemma keyword_is_stropped_thm l ty w : cpp_whole_token_premise -> In w (lang_keywords l) -> str_eqb (lower ty) ty_all = false ->
   exists t, strop_lang l ty w = Ok t /\ t <> w /\ ~ In t (lang_keywords l).
 Proof.
-  intros Hin Hty. destruct (keywords_reserved_thm l w Hin) as [_ Hv].
+  intros P Hin Hty. destruct (keywords_reserved_thm l w Hin) as [_ Hv].
   assert (Hne : w <> []) by (destruct w; discriminate).
-  destruct (strop_total_lang l ty w Hne Hty) as (t & Ht). exists t; split; [exact Ht|].
+  destruct (strop_total_lang l ty w P Hne Hty) as (t & Ht). exists t; split; [exact Ht|].
   pose proof (strop_never_keyword_thm l ty w t Hne Ht) as Hn. split; [intros ->; contradiction|exact Hn].
 Qed.
 
@@ -111,6 +111,7 @@ Proof.
   destruct (dry_ok (do_for_type_and_all (strop_by_pattern u cfg) s3 (lower ty) true)); [|discriminate].
   destruct (dry_ok (do_for_type_and_all (strop_by_keyword cfg) s3 (lower ty) true)); [|discriminate].
   destruct (dry_ok (do_for_type_and_all (encode u sp cfg) s3 (lower ty) true)) eqn:E3; [|discriminate].
+  destruct (negb (sc_full_check cfg) || full_ok u cfg (lower ty) s3); [|discriminate].
   cbn [andb]. intros [= <-] r Hin. unfold do_for_type_and_all, encode in E3. unfold rules_of in Hin.
   destruct (lookup (sc_rules cfg) ty_all) as [ra|]; [|destruct Hin].
   apply (encode_rules_dry_inv u sp cfg ra s3); [|exact Hin].
@@ -156,11 +157,11 @@ Lemma filter_id_is_model_thm :
   /\ forall i, run_default default_id_rule i = Some (default_filter_id i).
 Proof. repeat split; try reflexivity. exact run_default_model. Qed.
 
-Lemma filter_id_total_sound_thm l i ty : default_filter_id i <> [] -> str_eqb (lower ty) ty_all = false ->
+Lemma filter_id_total_sound_thm l i ty : cpp_whole_token_premise -> default_filter_id i <> [] -> str_eqb (lower ty) ty_all = false ->
   exists t, filter_id l i ty = Ok t /\ valid_ident t = true /\ reserved_lang l t = false /\ pattern_lang l ty t = false
             /\ ~ In t (lang_keywords l).
 Proof.
-  intros Hne Hty. unfold filter_id. destruct (strop_total_lang l ty _ Hne Hty) as (t & Ht). exists t.
+  intros P Hne Hty. unfold filter_id. destruct (strop_total_lang l ty _ P Hne Hty) as (t & Ht). exists t.
   destruct (strop_sound_lang l ty _ t Hne Ht) as (H1 & H2 & H3). repeat split; try assumption.
   exact (strop_never_keyword_thm l ty _ t Hne Ht).
 Qed.
